@@ -35,6 +35,17 @@ func Add(s string) int {
 '''
 
 
+def thin_pkg_files(name, deps, blank):
+    """a package without package-level variables and without init functions: only its imports need initialising"""
+    if blank:
+        imp = "import (\n\t\"vt/tr\"\n" + "".join("\t_ \"vt/%s\"\n" % d for d in deps) + ")\n"
+        body = "func F(from string) int { return tr.Add(\"%s.F<-\" + from) }\n" % name
+    else:
+        imp = "import (\n\t\"vt/tr\"\n" + "".join("\t\"vt/%s\"\n" % d for d in deps) + ")\n"
+        body = "func F(from string) int { return tr.Add(\"%s.F<-\" + from) }\n\nfunc Deep() int { return 0%s }\n" % (name, "".join(" + %s.V2" % d for d in deps))
+    return {"%s/a_%s.go" % (name, name): "package %s\n\n%s\n%s" % (name, imp, body)}
+
+
 def pkg_files(name, deps, variant):
     """two files whose names sort opposite to the order of declaration dependencies."""
     a, z = [], []
@@ -68,9 +79,13 @@ def program(n, edges, variant, main_mode):
     names = ["p%d" % i for i in range(n)]
     files = {"tr/tr.go": TR}
     deps = {i: [names[j] for (a, j) in edges if a == i] for i in range(n)}
-    for i in range(n):
-        files.update(pkg_files(names[i], deps[i], variant))
     imported = {j for _, j in edges}
+    for i in range(n):
+        middle = bool(deps[i]) and i in imported
+        if variant in ("thin", "thinblank") and middle:
+            files.update(thin_pkg_files(names[i], deps[i], variant == "thinblank"))
+        else:
+            files.update(pkg_files(names[i], deps[i], "plain" if variant in ("thin", "thinblank") else variant))
     roots = [i for i in range(n) if i not in imported]
     if main_mode == "all":
         mi = list(reversed(range(n)))
@@ -89,13 +104,15 @@ def program(n, edges, variant, main_mode):
 def programs(tier):
     ps = {}
     maxn = 4 if tier == "thorough" else 3
-    variants = ["plain", "multi", "blank", "std", "all"] if tier == "thorough" else ["plain", "all"]
+    variants = ["plain", "multi", "blank", "std", "all", "thin", "thinblank"] if tier == "thorough" else ["plain", "all", "thin", "thinblank"]
     for n in range(1, maxn + 1):
         for di, edges in enumerate(dags(n)):
             for v in variants:
                 for mm in (("roots", "all") if n > 1 else ("roots",)):
                     if tier != "thorough" and mm == "all" and v == "plain":
                         continue
+                    if v in ("thin", "thinblank") and not any(any(a == j for a, _ in edges) and any(b == j for _, b in edges) for j in range(n)):
+                        continue  # no middle package in this DAG
                     name = "n%d_d%d_%s_%s" % (n, di, v, mm)
                     ps[name] = program(n, edges, v, mm)
     return ps
